@@ -123,6 +123,8 @@ def elems(j):
         return list(j)
     if pt == "set":
         return list(j["$set"])
+    if isinstance(j, dict) and list(j) == ["$tuple"]:
+        return list(j["$tuple"])          # a tuple is iterable like a list (only `_assert_type(list)` tells them apart)
     if pt == "str":
         return list(j)
     if pt == "dict":
